@@ -207,6 +207,7 @@ Definition classify_C17 (k : case_C17) : N :=
       let ks := keys_of lk in
       if is_nil (c_jobs c) && negb (is_nil (c_all c)) then 3          (* empty selection links an unselected job *)
       else if Nat.ltb (length lk) (length (c_jobs c)) then 2          (* two jobs, one path: silently merged     *)
+      else if existsb is_abs ks then 6                                (* nested value starting with the separator: absolute key *)
       else if check_structure [] ks && later_conflict ks then 1       (* order dependent leaf/node check (F15)   *)
       else if existsb nonfinal_has_job ks
               || match get (k_pre k) vp with Some n => has_job_dir n | None => false end then 5
